@@ -106,7 +106,7 @@ CONTEXTS = [("asg", 8, False), ("asg", 6, True), ("asg", 2, False), ("if",), ("c
 def mk_leaves():
     from migen import Signal
     return dict(a=Signal(3, name_override="a"), b=Signal((3, True), name_override="b"), c=Signal(1, name_override="c"),
-                d=Signal((4, True), name_override="d"), e=Signal(5, name_override="e"))
+                d=Signal((4, True), name_override="d"), e=Signal(5, name_override="e"), f=Signal((1, True), name_override="f"))
 
 
 def mk(spec, L):
@@ -1227,6 +1227,14 @@ def stmt_templates():
         dom.__iadd__([y.eq(E1()), Case(L["b"][:3], {-3: y[5].eq(1), 5: y[4].eq(L["c"]), "default": y[0].eq(1)})])
         return [y]
     T.append(("case_negative_key_on_unsigned_selector", t_case_negative_key))
+
+    def t_one_bit_signed(m, dom, L, E1, E2, pfx):
+        # a ONE-BIT SIGNED signal (values 0 / -1) as port, register and operand: sign extension into wider targets, arithmetic, comparison with 0
+        y, z, r = tgt(pfx, "y", 6, True), tgt(pfx, "z", 5), Signal((1, True), name_override="%s_r" % pfx)
+        f = L["f"]
+        dom.__iadd__([y.eq(f), z.eq(f + L["a"]), r.eq(f & L["c"]), If(r < 0, z[4].eq(1)), If(f < 0, y[0].eq(E1()[0]))])
+        return [y, z, r]
+    T.append(("one_bit_signed_signal", t_one_bit_signed))
 
     def t_last_wins(m, dom, L, E1, E2, pfx):
         y = tgt(pfx, "y", 6, True)
